@@ -16,9 +16,9 @@ VARIABLE row
 
 Contexts == {"sheet", "after-charset", "import-prelude", "namespace-prelude", "media-prelude", "media-rules", "page-prelude", "page-block",
              "fontface-block", "variables-block", "unknown-prelude", "unknown-block", "selector", "attrib", "pseudo-arg", "not-arg",
-             "decl-block", "decl-name", "decl-value", "decl-prio", "func-arg", "rgb-arg", "var-arg", "calc-arg", "url-open", "paren", "bracket",
-             "style-attr", "margin-block"}
-Tokens == {"ident", "IDENT-and", "ident-important", "ident-inherit", "func", "url(", "var(", "calc(", "rgb(", "not(", "nth-child(", "expression(",
+             "decl-block", "decl-name", "decl-value", "decl-prio", "func-arg", "rgb-arg", "hsl-arg", "var-arg", "var-fallback", "calc-arg", "url-open",
+             "paren", "bracket", "style-attr", "margin-block"}
+Tokens == {"ident", "IDENT-and", "ident-important", "ident-inherit", "func", "url(", "var(", "calc(", "rgb(", "hsl(", "not(", "nth-child(", "expression(",
            "@charset-sp", "@charset", "@import", "@media", "@page", "@font-face", "@namespace", "@variables", "@top-left", "@x",
            "hash", "string", "uri", "number", "percentage", "dimension", "urange", "~=", "|=", "cdo", "cdc", "S", "comment",
            "{", "}", "(", ")", "[", "]", ";", ":", ",", ".", "*", ">", "+", "!", "/", "=", "#", "@", "%", "&", "$", "-", "bs",
@@ -37,10 +37,13 @@ Shift(c, t) ==
       [] t = "!" /\ c = "decl-value" -> "decl-prio"
       [] t \in {"func", "expression("} /\ c \in {"decl-value", "func-arg"} -> "func-arg"
       [] t = "rgb(" /\ c = "decl-value" -> "rgb-arg"
+      [] t = "hsl(" /\ c = "decl-value" -> "hsl-arg"
+      [] t = "," /\ c = "var-arg" -> "var-fallback"
+      [] t = "var(" /\ c = "var-fallback" -> "var-arg"
       [] t = "var(" /\ c = "decl-value" -> "var-arg"
       [] t = "calc(" /\ c = "decl-value" -> "calc-arg"
       [] t = "url(" -> "url-open"
-      [] t = ")" /\ c \in {"func-arg", "rgb-arg", "var-arg", "calc-arg", "url-open"} -> "decl-value"
+      [] t = ")" /\ c \in {"func-arg", "rgb-arg", "hsl-arg", "var-arg", "var-fallback", "calc-arg", "url-open"} -> "decl-value"
       [] t = ")" /\ c \in {"pseudo-arg", "not-arg"} -> "selector"
       [] t = "[" /\ c \in {"selector", "sheet", "not-arg"} -> "attrib"
       [] t = "]" /\ c = "attrib" -> "selector"
@@ -60,7 +63,7 @@ ShiftTotal == \A c \in Contexts, t \in Tokens : Shift(c, t) \in Contexts
 
 \* how each context is entered from the start of a sheet (prefix text id, rendered by the adapter)
 Seqs(n) == UNION {[1..k -> Tokens] : k \in 0..n}
-SmallTokens == {"ident", "func", "url(", "var(", "rgb(", "@import", "@media", "@x", "string", "number", "{", "}", "(", ")", "[", ";", ":", ",", "!",
+SmallTokens == {"ident", "func", "url(", "var(", "rgb(", "hsl(", "percentage", "@import", "@media", "@x", "string", "number", "{", "}", "(", ")", "[", ";", ":", ",", "!",
                 "open-string", "open-comment", "bs", "cdo", "S"}
 Entries == {"string", "bytes", "style"}
 Options == {[comments |-> c, validate |-> v] : c \in BOOLEAN, v \in BOOLEAN}
@@ -69,7 +72,8 @@ TokRows == {[kind |-> "tokens", ctx |-> c, toks |-> s, entry |-> "string"] : c \
                    s \in {x \in [1..2 -> Tokens] : MaxToks >= 2 /\ (x[1] \in SmallTokens \/ (MaxToks >= 3 /\ x[2] \in SmallTokens))}}
            \cup {[kind |-> "tokens", ctx |-> "sheet", toks |-> s, entry |-> "string"] : s \in {x \in [1..3 -> SmallTokens] : MaxToks >= 3}}
            \cup {[kind |-> "tokens", ctx |-> "style-attr", toks |-> s, entry |-> "style"] : s \in Seqs(2)}
-Openers == {"{", "(", "[", "func", "calc(", "not(", "@media", "@x-block", "url(", "rgb(", "var(", "paren-in-selector", "attr-in-not", "string-in-func", "comment"}
+Openers == {"{", "(", "[", "func", "func-comma", "calc(", "not(", "@media", "@x-block", "url(", "rgb(", "hsl(", "var(", "var-fallback", "paren-in-selector",
+            "attr-in-not", "string-in-func", "comment"}
 NestRows == {[kind |-> "nest", opener |-> o, depth |-> d, ctx |-> c, close |-> cl, entry |-> "string"] :
                 o \in Openers, d \in Depths, c \in {"sheet", "decl-value", "selector", "media-rules"}, cl \in BOOLEAN}
 Graphs == {"none", "chain3", "diamond", "self-loop", "two-cycle", "missing"}
